@@ -1,0 +1,9 @@
+//go:build !verif
+
+package connect
+
+import "bytes"
+
+func verifPoolGet(*bufferPool, *bytes.Buffer) {}
+
+func verifPoolPut(*bufferPool, *bytes.Buffer) {}
